@@ -40,6 +40,11 @@ impl<T: Sc> AnyStats<T> {
     pub fn calculate_correlation_matrix(&self) -> nalgebra::DMatrix<T> {
         fwd!(self, s => s.calculate_correlation_matrix())
     }
+    /// the deprecated alias of `calculate_correlation_matrix`
+    #[allow(deprecated)]
+    pub fn correlation_matrix_deprecated(&self) -> nalgebra::DMatrix<T> {
+        fwd!(self, s => s.correlation_matrix())
+    }
     pub fn weighted_residuals(&self) -> nalgebra::DVector<T> {
         fwd!(self, s => s.weighted_residuals())
     }
